@@ -69,6 +69,10 @@ CLAIMED = {
    text="Travel family: generated pipelines of non-handler operators (unary operators, merge / zip / concat / combine_latest / sequence_equal siblings, take_until / skip_until / sample with the faulted source on the source side, flat_map with cold inners) over hot / subject / cold sources; the error fault with a unique payload is placed at EVERY position of the faulted source's script (enumerated inside each case) and each variant is compared with the fault-free run cut at the same position: same events before, then the very same payload exactly once as the last event. Handler family: retry(0..4), retry_when (4 predicates), on_error_resume_next (5 resume functions), materialize, materialize+dematerialize over a hot source whose k-th subscription has its own script, against reference models including the source-subscription count and 'the failed attempt is unsubscribed before the next one starts'.",
    technique='deterministic simulation (single driver task): error fault enumerated at every script position, differential + reference-model oracles',
    note="Sampling of pipelines and scripts; inside a case the fault positions are enumerated completely. retry(n) convention as named in the property's anchors."),
+ 'C07': dict(level='exploration', design='5.7',
+   text="The simulator runtime is the oracle (self-deadlock, deadlock, livelock under a fairness rule, panic). Scenario catalogue: every threaded family of C05, C08, C09, C11, C12, C13, C15, C16, C18, C19 and every single-task family of C01, C03, C04, C05, C06, C10, C13, C14, C17 re-run with only this oracle, both RwLock policies sampled equally and one stalled thread in a fifth of the threaded runs; plus the re-entrant family: for every single-source operator (and ref_count / replay) over each of the four subject types, a subscriber callback (next or terminal) that unsubscribes itself, emits into / completes / fails the subject it is being called from, or subscribes a second observer.",
+   technique='deterministic simulation: lock-table runtime detects self-deadlock / deadlock / livelock; seeded scheduling, RwLock-policy and stall faults; re-entrant callbacks',
+   note="Trusted base: the lock model of rt/src/exec.rs (writer-preferring = std futex RwLock on Linux: a recursive read behind a queued writer blocks; reader-preferring alternative also sampled). Pipelines that are unbounded by definition (retry(0)/retry_when over an always failing source, endless producers) are not judged for livelock here."),
  # -- more claimed
 }
 NA = {
